@@ -109,7 +109,8 @@ def _(c):
     c.modifies("self.offset")
     # C08 / G92: afterwards the logical position reads v and the native position is unchanged
     c.ensures("C08.g92-rebase", lambda f: eq(A.n2l_current(f.self), val(f.a.offset)), props=("C08",),
-              cases={"g92-changes-logical-position": lambda f: Not(eq(A.n2l_current(f.self), val(f.a.offset)))})
+              cases={"g92-changes-logical-position": lambda f: Not(eq(A.n2l_current(f.self), val(f.a.offset))),
+                     "g92-in-relative-mode": lambda f: Not(f.self.absoluteMode)})
     c.ensures("native-position-kept", lambda f: eq(val(f.self.current), val(f.old.self.current)), props=("C08", "C01"))
     c.use_modular()
 
